@@ -58,6 +58,7 @@ type ProbeOp struct {
 type ClientProbe struct {
 	Kind string    `json:"kind"`
 	NS   string    `json:"ns"`
+	Base string    `json:"base,omitempty"` // the API server is reached under a path of its own (kubectl proxy --api-prefix, cluster proxies)
 	Ops  []ProbeOp `json:"ops"`
 	Sim  SimCfg    `json:"sim"`
 }
@@ -105,6 +106,7 @@ func genClientProbe(g GenCtx) *ClientProbe {
 	rng := g.Rng
 	sc := &ClientProbe{Kind: AllKindsOf()[(g.Idx/16)%len(AllKindsOf())]}
 	sc.NS = pick(rng, "", "n1", "kube-system", "team-a")
+	sc.Base = pick(rng, "", "", "/k8s/clusters/c-1", "/proxy")
 	for i := 1 + rng.Intn(5); i > 0; i-- {
 		op := ProbeOp{Op: pick(rng, "list", "watch", "watch"), RV: pick(rng, "", "0", "10", "4711")}
 		for k := 1 + rng.Intn(3); k > 0; k-- {
@@ -124,7 +126,7 @@ func runClientProbe(sc *ClientProbe) {
 	}
 	for _, op := range sc.Ops {
 		tr := &probeTransport{kind: sc.Kind, statuses: op.Statuses}
-		cs, err := kubernetes.NewForConfigAndClient(&rest.Config{Host: "http://apiserver.invalid", QPS: -1}, &http.Client{Transport: tr})
+		cs, err := kubernetes.NewForConfigAndClient(&rest.Config{Host: "http://apiserver.invalid" + sc.Base, QPS: -1}, &http.Client{Transport: tr})
 		if err != nil {
 			detsim.Fail("infra:scenario", "clientset: %v", err)
 		}
@@ -148,12 +150,12 @@ func runClientProbe(sc *ClientProbe) {
 		}
 		for i, r := range tr.reqs {
 			path := r.URL.Path
-			want := home.prefix
+			want := sc.Base + home.prefix
 			if sc.NS != "" {
 				want += "/namespaces/" + sc.NS
 			}
 			want += "/" + home.resource
-			legacy := home.prefix + "/watch" + strings.TrimPrefix(want, home.prefix)
+			legacy := sc.Base + home.prefix + "/watch" + strings.TrimPrefix(want, sc.Base+home.prefix)
 			q := r.URL.Query()
 			isWatch := q.Get("watch") == "true" || q.Get("watch") == "1"
 			okPath := path == want && (op.Op == "list" && !isWatch || op.Op == "watch" && isWatch) || op.Op == "watch" && path == legacy
